@@ -14,6 +14,10 @@ raised  <=>  ignore is off, the replacement is non-empty and two selected matche
 raised no structure comes back; otherwise a structure comes back in which every atom of some D_m is gone, every other
 atom of the input is present exactly once (atoms carry unique charges) and the atom count is N - |U D_m| + M x (atoms only
 in the replacement); the reported count is the number of selected matches.
+With a fraction < 1 the selected matches are the ones the call drew (random.sample observed); when a call ends without
+having drawn a selection, the property is evaluated over EVERY selection of an admissible size (fraction x found, rounded
+to a nearest integer) by brute force: the overlap error is wrong if no such selection contains two matches removing the
+same atom, a returned structure is wrong if every such selection does; anything in between is counted as ambiguous.
 Tie: the same call through the Lean model `replaceCore` on the matches the code used: same outcome (structure / overlap
 error) and, on success, the same canonical structure (positions within 1e-7)."""
 import itertools
@@ -33,8 +37,10 @@ RULE = ("pattern copies sharing atoms: hetero chains A-B-A-B-.. with unequal / e
         "the others dropped, swapped for another element, or kept as the same element NUDGED by 1e-4..0.03 A (not shared by the "
         "documented 1e-5 A rule although within the search tolerance), optional extra atom, EMPTY replacement (plain Atoms(); the search pattern with every atom deleted; zero atoms + type tables; "
         "+ pair / bond coefficient tables); replace_all on/off; "
-        "ignore flag on/off; fraction 1 or < 1; atol in {.05, .02, .1}; return_num_matches on/off. A second stream drives "
-        "the same cases (LAMMPS-oriented cells, all matches, no flags) through the command line entry point mofun_cli in-process "
+        "ignore flag on/off; fraction 1 or < 1 (round values, any 64th, k/n and k/n +- 1/(4n) for k = 0..n-1 of the n copies: none, one, "
+        "some, all but one of the found matches selected; a dedicated stream of such cases on the overlapping templates, and every "
+        "run each carrier with exactly k of n selected); atol in {.05, .02, .1}; return_num_matches on/off. A second stream drives "
+        "the same cases (LAMMPS-oriented cells, all matches or -p fraction < 1, no flags) through the command line entry point mofun_cli in-process "
         "(input .lmpdat + .cml patterns written by the harness; exit status, propagated exception and the presence / content of the "
         "output file judged). Thorough: every template x every retained subset x drop/swap x extra x both "
         "flags. Non-trivial = distinct input with >= 2 selected matches that share at least one atom.")
@@ -221,6 +227,23 @@ def replacement_for(rng, pat, retain, other="drop", extra=False):
     return [elems[i] for i in order], [pos[i] for i in order]
 
 
+FRACTIONS = [0.0, 0.125, 0.25, 0.34, 0.4, 0.5, 0.6, 0.67, 0.75, 0.9]
+
+
+def fraction_below_one(rng, ncopies):
+    """a replacement fraction in [0, 1): a round value, any 64th, or one aimed at selecting k of about `ncopies` matches
+    (exactly k / n, or a quarter of a match to either side), k = 0 .. n - 1 - so that none, one, some or all but one of
+    the found matches are selected"""
+    u = rng.random()
+    if u < 0.45:
+        return rng.choice(FRACTIONS)
+    if u < 0.6:
+        return rng.randint(0, 63) / 64.0
+    n = ncopies                    # every template is found once per copy
+    k = rng.randint(0, n - 1)
+    return min(0.99, max(0.0, (k + rng.choice([-0.25, 0.0, 0.0, 0.25])) / n))
+
+
 def make_case(rng, kind=None, ncopies=None, retain=None, other=None, extra=None, replace_all=None, ignore=None, f=None,
               empty=None, cell_kind=None):
     kind = kind or rng.choice(KINDS)
@@ -248,7 +271,7 @@ def make_case(rng, kind=None, ncopies=None, retain=None, other=None, extra=None,
         # EMPTY of every kind: Atoms(), the search pattern with all atoms deleted, zero atoms + type (+ coefficient) tables
         rj, rj_src, ekind = g.empty_replacement(rng, pj, empty if isinstance(empty, str) else None)
     if f is None:
-        f = 1.0 if rng.random() < 0.8 else rng.choice([0.5, 0.67, 0.75, 0.34])
+        f = 1.0 if rng.random() < 0.8 else fraction_below_one(rng, ncopies)
     return {"op": "replace-c07", "sj": sj, "pj": pj, "rj": rj, "atol": rng.choice([0.05, 0.05, 0.05, 0.02, 0.1]), "f": f,
             "return_num": bool(rng.random() >= 0.15), "rj_src": rj_src, "np_args": bool(rng.random() < 0.25),
             "replace_all": bool(rng.random() < 0.3 if replace_all is None else replace_all),
@@ -259,18 +282,68 @@ def make_case(rng, kind=None, ncopies=None, retain=None, other=None, extra=None,
 
 # ------------------------------------------------------------------ the property on the real result
 
+def admissible_sizes(f, n):
+    """how many of n found matches a fraction f selects: f x n rounded to a nearest integer (both neighbours when f x n
+    lies half-way, whatever the rounding rule)"""
+    x = Fraction(float(f)) * n
+    lo = x.numerator // x.denominator
+    frac = x - lo
+    if abs(frac - F(1, 2)) < F(1, 10 ** 9):
+        ks = {lo, lo + 1}
+    else:
+        ks = {lo + 1 if frac > F(1, 2) else lo}
+    return sorted(k for k in ks if 0 <= k <= n)
+
+
+def unobserved_selection(inp, out, found, shared, r_empty):
+    """fraction < 1 and the call never drew its selection where the harness can see it (it stopped, or chose, in
+    another way).  Which matches were selected is then unknown, but the property still bounds the outcome: the selected
+    matches are SOME subset of the found ones of an admissible size.  By brute force over all such subsets:
+      * the overlap error can only be right if at least one admissible selection contains two matches that remove the
+        same atom (and the caller did not ask to ignore, and the replacement is not empty);
+      * a returned structure can only be right if at least one admissible selection is free of double removals (or
+        the caller asked to ignore, or the replacement is empty).
+    Everything in between stays undecided."""
+    n = len(found)
+    dall = c04.removal_sets(found, shared, inp["replace_all"], r_empty)
+    sizes = admissible_sizes(inp["f"], n)
+    some_overlap, some_clean = False, False
+    for k in sizes:
+        for sub in itertools.combinations(range(n), k):
+            ov = any(dall[i] & dall[j] for a, i in enumerate(sub) for j in sub[a + 1:])
+            some_overlap = some_overlap or ov
+            some_clean = some_clean or not ov
+    obs = {"found": found, "removal_sets_of_found": [sorted(d) for d in dall], "fraction": inp["f"],
+           "admissible_numbers_of_selected_matches": sizes, "ignore": inp["ignore"], "replace_all": inp["replace_all"],
+           "outcome": "structure" if "ok" in out else out.get("err")}
+    if out.get("err") == "overlap":
+        if r_empty:
+            return "the replacement is empty, yet the replacement raised the overlap error", obs
+        if inp["ignore"]:
+            return "the caller asked to ignore double removals, yet the replacement raised the overlap error", obs
+        if not some_overlap:
+            return ("with this fraction %s of the %d found matches are selected, and NO such selection contains two matches "
+                    "that remove the same atom, yet the replacement raised the overlap error (matches that are not "
+                    "selected do not count)" % (" or ".join(str(k) for k in sizes), n), obs)
+        return "ambiguous"
+    if "ok" in out and not some_clean and not inp["ignore"] and not r_empty:
+        return ("every admissible selection of the found matches contains two matches that remove the same atom, yet a "
+                "structure was returned instead of the overlap error", obs)
+    return "ambiguous"
+
+
 def oracle_overlap(inp, out):
     """None | (text, observed) | "ambiguous" """
     sj, pj, rj = inp["sj"], inp["pj"], inp["rj"]
     if out.get("found") is None:
         return "the search inside the replacement raised", out.get("err")
     found = [tuple(t) for t in out["found"][0]]
-    if inp["f"] < 1.0 and out.get("sample") is None:
-        return "ambiguous"                    # selection not observable
-    used = [tuple(u["idx"]) for u in out["used"]]
     pel, rel = c04.elems_of(pj), c04.elems_of(rj)
     shared = g.shared_pairs(rel, [a["pos"] for a in rj["atoms"]], pel, [a["pos"] for a in pj["atoms"]])
     r_empty = not rel
+    if inp["f"] < 1.0 and out.get("sample") is None:
+        return unobserved_selection(inp, out, found, shared, r_empty)
+    used = [tuple(u["idx"]) for u in out["used"]]
     dsets = c04.removal_sets(used, shared, inp["replace_all"], r_empty)
     k = len(used)
     overlap = any(dsets[i] & dsets[j] for i in range(k) for j in range(i + 1, k))
@@ -418,6 +491,8 @@ def cli_case(rng):
                     False, False, 1.0, empty=False, cell_kind=rng.choice(["ortho", "ortho", "tri+", "tri-"]))
     inp["sj"]["terms"] = {k: [] for k in ("bond", "angle", "dihedral", "improper")}
     inp["return_num"] = False
+    if rng.random() < 0.3:
+        inp["f"] = fraction_below_one(rng, inp["info"]["copies"])          # -p / --replace-fraction
     inp["via"] = "cli"
     inp["op"] = "replace-c07-cli"
     return inp
@@ -435,7 +510,7 @@ def cli_run(inp):
     from mofun.cli.mofun_cli import mofun_cli
     d = tempfile.mkdtemp(prefix="c07cli_")
     rec = {}
-    real_find = mm.find_pattern_in_structure
+    real_find, real_sample = mm.find_pattern_in_structure, random.sample
 
     def find_wrap(*a, **k):
         o = real_find(*a, **k)
@@ -443,23 +518,31 @@ def cli_run(inp):
             rec["found"] = ([[int(i) for i in t] for t in o[0]], np.array(o[1], dtype=float).tolist(),
                             [[float(x) for x in qq.as_quat()] for qq in o[2]])
         return o
+
+    def sample_wrap(pop, k):
+        o = real_sample(pop, k)
+        rec["sample"] = [int(i) for i in o]
+        return o
     try:
         write_lmpdat(os.path.join(d, "in.lmpdat"), inp["sj"])
         write_cml(os.path.join(d, "search.cml"), inp["pj"])
         write_cml(os.path.join(d, "replace.cml"), inp["rj"])
         outp = os.path.join(d, "out.lmpdat")
         mm.find_pattern_in_structure = find_wrap
+        random.sample = sample_wrap
         random.seed(inp["seed"])
         np.random.seed(inp["seed"] % (2 ** 32))
         try:
             with core.quiet():
                 res = CliRunner().invoke(mofun_cli, [os.path.join(d, "in.lmpdat"), outp, "-f", os.path.join(d, "search.cml"),
-                                                     "-r", os.path.join(d, "replace.cml"), "--atol", repr(float(inp["atol"]))])
+                                                     "-r", os.path.join(d, "replace.cml"), "--atol", repr(float(inp["atol"]))]
+                                         + (["-p", repr(float(inp["f"]))] if inp["f"] < 1.0 else []))
         finally:
             mm.find_pattern_in_structure = real_find
+            random.sample = real_sample
         exc = type(res.exception).__name__ if (res.exception is not None and not isinstance(res.exception, SystemExit)) else None
         written = os.path.exists(outp)
-        out = {"found": rec.get("found"), "sample": None, "n": None, "inputs_unchanged": True,
+        out = {"found": rec.get("found"), "sample": rec.get("sample"), "n": None, "inputs_unchanged": True,
                "cli": {"exit_code": res.exit_code, "exception": exc, "output_written": written, "stdout": (res.output or "")[-200:]}}
         if exc == "AtomsShouldNotBeDeletedTwice":
             out["err"] = ("overlap" if (not written and res.exit_code != 0) else
@@ -473,7 +556,7 @@ def cli_run(inp):
         if out["found"] is not None:
             idx, pos, quats = out["found"]
             out["used"] = [{"idx": idx[i], "pos": [[core.q(x) for x in pp] for pp in pos[i]], "quat": [core.q(x) for x in quats[i]]}
-                           for i in range(len(idx))]
+                           for i in (out["sample"] if out["sample"] is not None else range(len(idx)))]
         return out
     finally:
         shutil.rmtree(d, ignore_errors=True)
@@ -500,6 +583,19 @@ def record(ctx, inp, out, bad):
         ctx.count(t)
     if bad:
         ctx.fail(bad[0], inp, observed=bad[1], required=REQUIRED, tags=tags_of(inp, out))
+
+
+def fraction_case(rng, kind=None, ncopies=None, f=None, ignore=None):
+    """only SOME of the found matches are selected (fraction < 1) on templates whose occurrences share atoms: whether the
+    overlap error is due depends on the SELECTED matches alone - found matches that are not selected may overlap as
+    they like"""
+    kind = kind or rng.choice([k for k in KINDS if k != "disjoint"])
+    ncopies = ncopies or rng.randint(2, MAXCOPIES[kind])
+    npat = 2 if kind == "star2" else 3
+    retain = [j for j in range(npat) if rng.random() < 0.35]
+    f = fraction_below_one(rng, ncopies) if f is None else f
+    return make_case(rng, kind, ncopies, retain, None, None, rng.random() < 0.3, rng.random() < 0.2 if ignore is None else ignore, f,
+                     empty=rng.random() < 0.1)
 
 
 def systematic(rng):
@@ -539,6 +635,12 @@ def run(ctx, oracle_only=False, scale=1):
         for ek in ("plain", "deleted-search", "tables", "tables+coeffs"):
             for ig in (False, True):
                 inps.append(make_case(rng, kind, 2, [], "drop", False, rng.random() < 0.3, ig, 1.0, empty=ek))
+    # fraction < 1 on overlapping occurrences: random, and every run each carrier with exactly k of n selected, k = 0 .. n - 1
+    inps += [fraction_case(rng) for _ in range(ctx.n(160, 1500) * scale)]
+    for kind in ("chain", "homo", "star2", "ring", "ring_pbc", "edge"):
+        for nc in range(2, MAXCOPIES[kind] + 1):
+            for k in range(nc):
+                inps.append(fraction_case(rng, kind, nc, k / nc, False))
     if ctx.tier != "quick":
         inps += systematic(rng)
     procs = 1 if len(inps) <= 1500 else max(1, min(8, (os.cpu_count() or 2) // 2))
